@@ -4,7 +4,7 @@ expression languages the translators accept aborts with exit status 1."""
 import importlib, os, sys
 
 sys.path.insert(0, os.path.dirname(os.path.abspath(__file__)))
-TRANSLATORS = ["tr_dtypes", "tr_config", "tr_storage", "tr_hook", "tr_brackets", "tr_pyl", "tr_pyl_hook"]
+TRANSLATORS = ["tr_dtypes", "tr_config", "tr_storage", "tr_hook", "tr_brackets", "tr_pyl", "tr_pyl_hook", "tr_pyl_storage"]
 
 
 def write_if_changed(path, txt):
